@@ -20,7 +20,7 @@
    Domain: frames shorter than 2^16 bytes (the program itself keeps the length in a __u16; an XDP
    buffer is at most a page), byte values below 256. *)
 From Coq Require Import NArith List.
-From Verif Require Import Base.Word Base.Check Model.XdpDhcp Model.XdpDhcpSpec Model.XdpDhcpCheck Proofs.XdpDhcpProofs.
+From Verif Require Import Base.Word Base.Check Model.XdpDhcp Model.XdpDhcpSpec Model.XdpDhcpCheck Proofs.XdpDhcpProofs Proofs.XdpDhcpLeaseProofs.
 Import ListNotations.
 Local Open Scope N_scope.
 
@@ -137,6 +137,39 @@ Theorem C03_gone_not_answered :
 Proof. exact gone_not_answered. Qed.
 Print Assumptions C03_gone_not_answered.
 
+(* F over histories, cache level: once the binding of [mac] went, any later cache events that do not
+   ACK a hardware address with the same six-byte key leave the client's requests unanswered *)
+Theorem C03_gone_stays_gone :
+  forall m mac cid e es now unow f p ch,
+    e = GRelease mac cid \/ e = GDecline mac cid \/ e = GExpire mac cid ->
+    forallb (fun x => negb (writes_sub (go_mac_key mac) x)) es = true ->
+    parse f = Parsed p -> p_tagged p = false -> extract_cid f (p_dhcp p + 240) = Some None ->
+    rd f (p_dhcp p + 28) 6 = Some ch -> rev ch ++ [0; 0] = go_mac_key mac ->
+    forall v r mk, xdp (cache_steps (fst (cache_step m e)) es) now unow f = Done v r mk -> v = XDP_PASS /\ r = f.
+Proof. exact gone_stays_gone. Qed.
+Print Assumptions C03_gone_stays_gone.
+
+(* F over histories, lease-table level ([slow_step]: handleRequest's ACK branch with the circuit-ID
+   index and dropCircuitIDBindings, handleRelease, handleDecline, cleanupExpiredLeases): after ANY
+   history of handled messages (and pool / config / ageing events) every subscriber_pools entry belongs
+   to a lease of the lease table ... *)
+Theorem C03_cache_entry_has_lease :
+  forall ops, forallb served ops = true -> sub_has_lease (run_ops init ops).
+Proof. exact sub_has_lease_always. Qed.
+Print Assumptions C03_cache_entry_has_lease.
+
+(* ... hence: no lease whose hardware address maps to the request's key => not answered *)
+Theorem C03_no_lease_not_answered :
+  forall ops now unow f p ch,
+    forallb served ops = true ->
+    let s := run_ops init ops in
+    (forall hw l, aget hw (lt_leases (s_l s)) = Some l -> go_mac_key hw <> rev ch ++ [0; 0]) ->
+    parse f = Parsed p -> p_tagged p = false -> extract_cid f (p_dhcp p + 240) = Some None ->
+    rd f (p_dhcp p + 28) 6 = Some ch ->
+    forall v r mk, xdp (s_m s) now unow f = Done v r mk -> v = XDP_PASS /\ r = f.
+Proof. exact no_lease_not_answered. Qed.
+Print Assumptions C03_no_lease_not_answered.
+
 (* ---- G: expiry ---- *)
 Theorem C03_expired_silent_refuted : ~ expired_silent.
 Proof. exact expired_silent_refuted. Qed.
@@ -153,7 +186,7 @@ Print Assumptions C03_expired_silent_partial.
 (* ---- the recorded witnesses: Model = kernel program on each, monitor rejection and marker ---- *)
 Theorem C03_witness_rows :
   run_cases [wit_k03a; wit_k03c; wit_k03f; wit_k03g; wit_k03h] =
-  [[1; 0; 4; 4; 4; 4; 301]; [2; 0; 6; 6; 6; 6; 304]; [3; 0; 5; 3; 5; 3; 307]; [4; 0; 5; 2; 5; 2; 308]; [5; 0; 4; 4; 4; 4; 309]].
+  [[1; 0; 4; 4; 4; 4; 301]; [1; 0; 5; 4; 5; 4; 301]; [2; 0; 6; 6; 6; 6; 304]; [3; 0; 5; 3; 5; 3; 307]; [4; 0; 5; 2; 5; 2; 308]; [5; 0; 4; 4; 4; 4; 309]].
 Proof. exact wit_rows. Qed.
 Print Assumptions C03_witness_rows.
 
@@ -163,6 +196,16 @@ Example C03_tx_exists :
 Proof. eexists. eexists. vm_compute. reflexivity. Qed.
 Example C03_palindrome_exists : rev [10; 0; 0; 10] = [10; 0; 0; 10].
 Proof. reflexivity. Qed.
+Example C03_entry_present :
+  lookup (go_mac_key [2; 0; 94; 16; 0; 17]) (m_sub (s_m (run_ops init [ex_ack]))) <> None.
+Proof. exact ex_entry_present. Qed.
+Example C03_declined_no_lease :
+  lt_leases (s_l (run_ops init [ex_ack; Sv (SDecline [2; 0; 94; 16; 0; 17])])) = [] /\
+  m_sub (s_m (run_ops init [ex_ack; Sv (SDecline [2; 0; 94; 16; 0; 17])])) = [].
+Proof. exact ex_declined_no_lease. Qed.
+Example C03_second_fold_needed :
+  65536 <= fold16 (sum_le16 hdr_carry) /\ ip_checksum1 hdr_carry <> ip_checksum hdr_carry.
+Proof. exact second_fold_needed. Qed.
 Example C03_gone_hypotheses_met :
   skipn 6 (go_mac_key [2; 0; 94; 16; 0; 17]) = [0; 0] /\ rev (firstn 6 (go_mac_key [2; 0; 94; 16; 0; 17])) = [2; 0; 94; 16; 0; 17].
 Proof. vm_compute. split; reflexivity. Qed.
